@@ -195,6 +195,10 @@ def check_derive(case):
           tgt.diagnosers.append(diag)
         elif what == 'extra_kwargs':
           tgt.extra_kwargs['zz%d' % k] = k
+        elif what == 'measurement_doc' and tgt.measurements:
+          tgt.measurements[0].doc('documented later, by op %d' % k)          # the builder methods of a Measurement work in place
+        elif what == 'measurement_validator' and tgt.measurements:
+          tgt.measurements[0].with_validator(lambda v: True)
         mutated = i
         if i in derived:
           flags['derive_then_mutate'] = True
@@ -252,7 +256,7 @@ def check_derive(case):
 
 DERIVES = ['with_args', 'with_plugs_match', 'with_plugs_nomatch', 'options', 'measures', 'diagnose', 'plug', 'wrap_or_copy', 'copy', 'load_code_info',
            'seq', 'subtest', 'branch', 'group_lists', 'group_seqobj', 'with_context', 'wrap', 'combine', 'test']
-MUTS = ['opt_timeout', 'opt_name', 'plugs', 'measurements', 'diagnosers', 'extra_kwargs']
+MUTS = ['opt_timeout', 'opt_name', 'plugs', 'measurements', 'diagnosers', 'extra_kwargs', 'measurement_doc', 'measurement_validator']
 
 
 @st.composite
